@@ -282,6 +282,7 @@ func runC04(c *Ctx) {
 
 	runC04CurrentSeat(c, ea)
 	runC04SeatSuccessor(c, ea)
+	runC04OpeningSeat(c, ea, buildEventGraph(c, ea))
 	runNoStaleOffers(c, ea, "no-offers-outside-action-wait", "")
 }
 
